@@ -77,6 +77,28 @@ def _shorten(path):
         pass
 
 
+def _vanish(f):
+    path = f.get('target')
+    if f.get('target_job') is not None:            # the per-job result file of that job, among the files handed to merge_bams
+        import pysam
+        path = None
+        for b in (_STATE.get('last_args') or [[]])[0]:
+            try:
+                with pysam.AlignmentFile(b, check_sq=False) as h:
+                    r = next(h.fetch(until_eof=True), None)
+            except (OSError, ValueError):
+                continue
+            if r is not None and ((r.reference_name or '*') if r.reference_id >= 0 else '*') == f['target_job']:
+                path = b
+    if not path or not os.path.exists(path):
+        emit({'ev': 'vanish_target_missing'})
+        return
+    if f.get('how') == 'empty':
+        open(path, 'wb').close()
+    else:
+        os.remove(path)
+
+
 def _spoil(when, target):
     if target and when == 'partial':
         _truncate(target)
@@ -84,7 +106,7 @@ def _spoil(when, target):
         _shorten(target)
 
 
-def _raise(f, msg):
+def _raise(f, msg, site=None):
     if f.get('kind') == 'interrupt':
         # a real SIGINT to this process: Python's handler raises KeyboardInterrupt (a BaseException) right here
         import signal
@@ -96,6 +118,9 @@ def _raise(f, msg):
     if f.get('kind') == 'ioerror':
         import errno
         raise InjectedIOError(errno.ENOSPC, 'No space left on device (%s)' % msg)
+    if site in ('sort', 'index', 'merge'):
+        import pysam
+        raise pysam.SamtoolsError('injected: samtools %s failed (%s)' % (site, msg))     # the step's own error class
     raise InjectedFault(msg)
 
 
@@ -114,20 +139,24 @@ def point(site, when, target=None):
     if soft and soft['site'] == site and soft['when'] == when and soft['proc'] == role() and n <= soft['count']:
         _spoil(when, target)
         emit({'ev': 'fault_fired', 'site': site, 'when': when, 'n': n, 'kind': 'exception', 'soft': True})
-        _raise(f, 'injected (retryable) at %s:%s #%d' % (site, when, n))
+        _raise(f, 'injected (retryable) at %s:%s #%d' % (site, when, n), site)
     if f.get('site') != site or f.get('when') != when or f.get('proc') != role() or n != f.get('nth', 1):
         return
     _spoil(when, target)
     st['fired'] = True
     emit({'ev': 'fault_fired', 'site': site, 'when': when, 'n': n, 'kind': f['kind']})
+    if f['kind'] == 'vanish':            # environment fault: a file produced by an earlier step disappears / is emptied; no exception
+        _vanish(f)
+        return
     if f['kind'] == 'kill':
         sys.stdout.flush()
         os._exit(137)
-    _raise(f, 'injected at %s:%s #%d' % (site, when, n))
+    _raise(f, 'injected at %s:%s #%d' % (site, when, n), site)
 
 
 def wrap(site, fn, target_arg=None):
     def wrapper(*a, **k):
+        _STATE['last_args'] = a
         point(site, 'before')
         r = fn(*a, **k)
         tgt = None
@@ -222,9 +251,18 @@ def install(fault, evdir, out_path, snapshots=True):
 
     # the pysam dispatchers are looked up as attributes of the pysam module at call time
     pysam.sort = wrap('sort', pysam.sort, target_arg=lambda a, k: a[a.index('-o') + 1] if '-o' in a else None)
-    pysam.index = wrap('index', pysam.index)
+    pysam.index = wrap('index', pysam.index, target_arg=lambda a, k: a[0] + '.bai')
     pysam.merge = wrap('merge', pysam.merge, target_arg=lambda a, k: a[0])
     bf.add_readgroups_to_header = wrap('rehead', bf.add_readgroups_to_header)
+
+    class _OsProxy(object):
+        """bamFunctions' view of `os`: rename / remove inside the helpers are step boundaries of their own."""
+        rename = staticmethod(wrap('bfrename', os.rename))
+        remove = staticmethod(wrap('bfremove', os.remove))
+
+        def __getattr__(self, name):
+            return getattr(os, name)
+    bf.os = _OsProxy()
 
     real_rmtree = shutil.rmtree
 
@@ -325,7 +363,8 @@ def inspect_output(out_path, with_records=True):
     st = read_status(out_path)
     o = {'status_raw': (st or '').strip()[:80], 'status': classify_status(st), 'exists': os.path.exists(out_path),
          'bai': os.path.exists(out_path + '.bai'), 'unsorted_left': os.path.exists(out_path + '.unsorted'),
-         'readable': False, 'so': '', 'records': [], 'hdr_rg': [], 'index_usable': False, 'via_index': -1, 'sq': []}
+         'readable': False, 'so': '', 'records': [], 'hdr_rg': [], 'index_usable': False, 'via_index': -1, 'sq': [],
+         'index_fresh': False}
     if not o['exists']:
         return o
     try:
@@ -345,6 +384,7 @@ def inspect_output(out_path, with_records=True):
         o['read_error'] = type(ex).__name__
         return o
     if o['bai']:
+        o['index_fresh'] = os.path.getmtime(out_path + '.bai') >= os.path.getmtime(out_path)
         try:
             with pysam.AlignmentFile(out_path) as f:
                 n = 0
@@ -386,6 +426,10 @@ def _child(case, cdir):
         if case.get('prerun'):          # a complete earlier run of the same command leaves output, index and status on disk
             arm(None, 'prerun')
             tm.run_multiome_tagging_cmd(list(case['argv']))
+            if case.get('stale_old_index') and os.path.exists(case['out'] + '.bai'):
+                # an index in samtools' older naming (<out>.bai) survives from the earlier run: the tagger does not remove it
+                import shutil as _sh2
+                _sh2.copyfile(case['out'] + '.bai', case['out'].replace('.bam', '.bai'))
         arm(case.get('fault'), 'main')
         try:
             tm.run_multiome_tagging_cmd(list(case['argv']))
